@@ -110,6 +110,62 @@ def check_pic_map(rep, prog, tier, add):
     return n
 
 
+
+def check_pic_resize(rep, prog, tier, add):
+    """ubuf_pic_common_resize: the window moves inside the fixed total (prepend + size + append is invariant)"""
+    u = prog.units[PIC_COMMON]
+    fn = u.funcs.get('ubuf_pic_common_resize')
+    if fn is None:
+        raise facts.AnalysisBroken('anchor vanished: ubuf_pic_common_resize')
+    n = 0
+    for M, (H, V), hm, vs, hmpre, hmapp, vpre, vapp in itertools.product((1, 2), ((1, 1), (2, 2)), (2, 4), (2, 4), (0, 2), (0, 2), (0, 2), (0, 2)):
+        if tier == 'quick' and (hm, vs) != (4, 4) and (hmpre, hmapp, vpre, vapp) != (2, 2, 2, 2):
+            continue
+        W = hm * M
+        hstep, vstep = M * H, V
+        reqs = [(hk, 0, hs, -1) for hk in range(-(hmpre + 1) * M, W + hstep + 1, hstep) for hs in [-1] + list(range(0, (hm + hmpre + hmapp + 1) * M + 1, hstep))]
+        reqs += [(0, vk, -1, vz) for vk in range(-(vpre + 1), vs + vstep + 1, vstep) for vz in [-1] + list(range(0, vs + vpre + vapp + 2, vstep))]
+        reqs += [(hstep, vstep, W - hstep, vs - vstep), (hstep, vstep, -1, -1), (-hstep, -vstep, W + hstep, vs + vstep)]
+        for hk, vk, hs, vz in reqs:
+            n += 1
+            inst = 'macropixel=%d,hsub=%d,vsub=%d,hmsize=%d,vsize=%d,hmargins=%d/%d,vmargins=%d/%d:resize(%d,%d,%d,%d)' % (
+                M, H, V, hm, vs, hmpre, hmapp, vpre, vapp, hk, vk, hs, vz)
+            what = None
+            try:
+                m, stride, lines = pic_machine(prog, u, M, H, V, 1, hm, vs, hmpre, hmapp, vpre, vapp, 0)
+                r = m.run(fn, [UB, hk, vk, hs, vz])
+                got = tuple(m.F[(UB, f)] for f in ('hmprepend', 'hmsize', 'hmappend', 'vprepend', 'vsize', 'vappend'))
+                before = (hmpre, hm, hmapp, vpre, vs, vapp)
+                nh = hs if hs != -1 else W - hk
+                nv = vz if vz != -1 else vs - vk
+                ok = nh >= 0 and nv >= 0 and hk % hstep == 0 and nh % hstep == 0 and vk % vstep == 0 and nv % vstep == 0
+                hmk, nhm = (hk // M if hk >= 0 else -((-hk) // M)), nh // M
+                inside = ok and hmpre + hmk >= 0 and hmpre + hmk + nhm <= hmpre + hm + hmapp and vpre + vk >= 0 and vpre + vk + nv <= vpre + vs + vapp and \
+                    (hmk < 0 or hmk <= hm) and (vk < 0 or vk <= vs)
+                want = (hmpre + hmk, nhm, hmpre + hm + hmapp - (hmpre + hmk) - nhm, vpre + vk, nv, vpre + vs + vapp - (vpre + vk) - nv) if inside else before
+                if r == 0:
+                    if not inside:
+                        what = 'a resize that leaves the allocated area (or the granularity) is accepted: geometry now %s' % (got,)
+                    elif got != want:
+                        what = 'after the resize (prepend, size, append) are h %s v %s, the reference h %s v %s: the totals %d x %d are no longer what was allocated' % (
+                            got[:3], got[3:], want[:3], want[3:], hmpre + hm + hmapp, vpre + vs + vapp)
+                else:
+                    if got != before:
+                        what = 'a refused resize changed the geometry to %s' % (got,)
+                    elif inside and nhm > 0 and nv > 0 and (hmk >= 0 or nhm >= -hmk) and (vk >= 0 or nv >= -vk):
+                        # (a window that would end before the old one starts is refused by design)
+                        what = 'a resize inside the allocated area on the granularity is refused (error %r)' % (r,)
+            except Finding as f:
+                what = str(f)
+            except PathEnd:
+                what = 'an assert() fails'
+            except Undecided as e:
+                add('R-geometry', 'pic_resize:' + inst, UNDECIDED, fn.loc, why=str(e))
+                continue
+            add('R-geometry', 'pic_resize:' + inst, VIOLATED if what else HOLDS, fn.loc, **({'what': what} if what else {}))
+    return n
+
+
 # ---- pictures: allocation --------------------------------------------------------------------------------
 
 def check_pic_alloc(rep, prog, tier, add):
@@ -292,11 +348,11 @@ def run_model(rep, prog, tier):
     for un in (PIC_COMMON, PIC_MEM, SND_COMMON):
         if un not in prog.units:
             raise facts.AnalysisBroken('anchor vanished: %s' % un)
-    rep.rule('R-geometry', 'ubuf_pic_common_plane_map, ubuf_pic_mem_alloc, ubuf_sound_common_resize and ubuf_sound_common_plane_map interpreted on every small '
+    rep.rule('R-geometry', 'ubuf_pic_common_plane_map, ubuf_pic_common_resize, ubuf_pic_mem_alloc, ubuf_sound_common_resize and ubuf_sound_common_plane_map interpreted on every small '
              'configuration (macropixel 1-2; planes with hsub / vsub 1-2 - 4:4:0 included - and macropixel sizes 1, 2, 4; margins, alignment 0 / 16 with a '
              'column offset; 1 and 3 sound planes of 1-, 3- and 4-octet samples) and every offset / size in and just outside the range: a window is accepted '
              'iff it lies in the picture / buffer on the granularity, starts where the reference geometry says, ends inside the plane and stays in its line; '
-             'an allocation gives every plane a stride of at least a line with its margins, planes that do not overlap, inside the area, aligned as asked; a '
+             'an allocation gives every plane a stride of at least a line with its margins, planes that do not overlap, inside the area, aligned as asked; a picture resize moves the window inside the allocated area only and keeps prepend + size + append equal to what was allocated, in both directions; a '
              'sound resize moves every plane by offset x sample size and is refused, without effect, when out of range')
     seen = set()
     counts = {'n': 0}
@@ -312,6 +368,7 @@ def run_model(rep, prog, tier):
     a = check_pic_map(rep, prog, tier, add)
     b = check_pic_alloc(rep, prog, tier, add)
     c = check_sound(rep, prog, tier, add)
-    rep.tables['R-geometry'] = {'plane_map_requests': a, 'allocations': b, 'sound_requests': c}
+    d = check_pic_resize(rep, prog, tier, add)
+    rep.tables['R-geometry'] = {'plane_map_requests': a, 'allocations': b, 'sound_requests': c, 'pic_resize_requests': d}
     if counts['n'] < 2000:
         raise facts.AnalysisBroken('R-geometry covered only %d cases' % counts['n'])
